@@ -546,6 +546,70 @@ def rule_hash_number_text(ctx: Ctx, rule: str = "hash-number-text") -> None:
     ctx.floor("hash-number-text functions inspected", n, 1)
 
 
+def rule_default_simplification(ctx: Ctx, rule: str = "default-simplification") -> None:
+    """C19: copy() rebuilds a contract with the default simplification, so a contract equals its copy only if it was
+    itself built that way: no method that returns a contract may switch the constructor's simplification off on its own
+    (forwarding the caller's `simplify` argument is the caller's choice)."""
+    prog = ctx.prog
+    n = 0
+    for cname in ("IoContract", "PolyhedralIoContract"):
+        ci = prog.cls(cname)
+        for mname, fi in sorted(ci.methods.items()):
+            if isinstance(fi.node, ast.Lambda) or mname == "__init__":
+                continue
+            for node in ast.walk(fi.node):
+                if not isinstance(node, ast.Call):
+                    continue
+                f = node.func
+                is_ctor = (isinstance(f, ast.Call) and isinstance(f.func, ast.Name) and f.func.id == "type") or (isinstance(f, ast.Name) and f.id in prog.classes and "IoContract" in f.id and "Compound" not in f.id)
+                if not is_ctor:
+                    continue
+                n += 1
+                construct = "%s builds its result with the default simplification (or the caller's flag)" % fi.key
+                flag = None
+                for kw in node.keywords:
+                    if kw.arg == "simplify":
+                        flag = kw.value
+                if flag is None and len(node.args) >= 5:
+                    flag = node.args[4]
+                if flag is None or (isinstance(flag, ast.Constant) and flag.value is True) or (isinstance(flag, ast.Name) and flag.id in fi.params):
+                    ctx.ok(rule, fi.key, construct, nontrivial=False)
+                elif isinstance(flag, ast.Constant) and flag.value is False:
+                    ctx.violation(rule, fi.key, construct, "`%s` switches the simplification off: the result differs from its own copy() (and from the same contract built from its parts) whenever a guarantee is redundant" % norm(node)[:80], where="%s:%d" % (fi.module.relpath, node.lineno))
+                else:
+                    ctx.cannot_decide(rule, fi.key, construct, "simplify=%s" % norm(flag))
+    ctx.floor("constructor calls in contract methods", n, 5)
+
+
+def rule_termlist_rename(ctx: Ctx, rule: str = "rename") -> None:
+    """C16: TermList.rename_variable renames every term and keeps every term (a term whose variables cancel reads
+    0 <= c and still means something when c < 0)."""
+    from .rules_poly import _comp_element
+
+    prog = ctx.prog
+    fi = prog.func("TermList.rename_variable")
+    construct = "TermList.rename_variable: every term is renamed and kept"
+    ps = [p for p in Sim(prog, fi).paths() if p.terminal == "return"]
+    if len(ps) != 1:
+        ctx.cannot_decide(rule, fi.key, construct, "%d returning paths" % len(ps))
+        return
+    v = ps[0].value
+    args = list(v[2]) + [x for _k, x in v[3]] if isinstance(v, tuple) and v and v[0] in ("call", "new") else []
+    filt = [x for x in walk(v) if isinstance(x, tuple) and x and x[0] == "listcomp" and any(g[1] for g in x[2])]
+    me = ("param", fi.params[0])
+    if filt:
+        conds = [show(c, 3) for x in filt for g in x[2] for c in g[1]]
+        ctx.violation(rule, fi.key, construct, "renamed terms are filtered by %s: a term whose variables cancel (0 <= c) is dropped although it is unsatisfiable for c < 0" % conds, where=fi.where)
+        return
+    ce = _comp_element(args[0]) if args else None
+    if ce is None:
+        ctx.cannot_decide(rule, fi.key, construct, "result is %s" % show(v, 4))
+        return
+    elt, base = ce
+    okc = base == ("attr", me, "terms") and isinstance(elt, tuple) and elt[0] == "mcall" and elt[1] == "rename_variable" and isinstance(elt[2], tuple) and elt[2][0] == "iter" and list(elt[3]) == [("param", fi.params[1]), ("param", fi.params[2])]
+    (ctx.ok(rule, fi.key, construct) if okc else ctx.violation(rule, fi.key, construct, "element is %s over %s" % (show(elt, 4), show(base, 3)), where=fi.where))
+
+
 def rule_copy(ctx: Ctx, rule: str = "copy-fields") -> None:
     """C19 E4: copy() hands a copy of every state field to the constructor in the right slot."""
     prog = ctx.prog
